@@ -12,6 +12,17 @@ Crash states:
   * the histories in which the hash patch (second handle, unbuffered) reaches the file BEFORE some of the footer arrays
     (main handle, buffered): hash moved in front of each footer event;
   * every truncation length of the finished file at the same cut points.
+  * the output path already holds a complete, valid SGZ file of an EARLIER conversion of other data / other settings
+    (per route one longer, one of equal length -- the same writer on other data of the same shape -- and one shorter,
+    from the pool of all routes' outputs, their twins, a 16-bit exhaustive and a 2-bit strip file): the writer runs onto
+    that path with the library's REAL open (mode, opener, flags as the library passes them); what that open left of the
+    earlier file is read back from the disk and is the base the recorded events are replayed on (a Base event).  The
+    completed file must be byte-identical to the one written onto a fresh path; crash states that do not occur on a
+    fresh path are evaluated with the same direct oracle (no byte of the earlier file is ever decoded).
+  * the copy writers (SgzCropper.write_cropped_file_by_indexes / _by_coords, SgzConverter.convert_to_adv_sgz): the crash
+    states of the writer onto a fresh path, and the writer onto a path holding an older, longer file (thorough tier: also
+    equal / shorter); convert_to_segy onto an older, longer SGZ and SEG-Y: the completed export, and what the library's
+    patch handle found and wrote, must be those of an export onto a fresh path.
 On every state every read method (and the constructor) is run from a fresh reader.
 direct oracle (no model): the call raises, or returns bitwise what it returns on the complete file.
 correspondence: (1) for states whose header already equals the final one (hash bytes aside) the model's verdict
@@ -31,7 +42,8 @@ import seismic_zfp.conversion as conv_mod
 
 R = Result('one case = (route, crash state, read method + arguments); crash states = every boundary of a file-changing event (write / truncate through any handle), cuts inside '
            'events (every 512 bytes, +-1 around boundaries, every table row and the value bytes of changed rows inside the '
-           'table patch), hash-before-footer interleavings, and truncations of the finished file; non-trivial = a state that '
+           'table patch), hash-before-footer interleavings, and truncations of the finished file; the same writers (and the cropper / '
+           're-blocker / SEG-Y export) onto a path holding an earlier longer / equal / shorter valid file; non-trivial = a state that '
            'is a proper prefix (not the complete file) on which the constructor or the call has to decide')
 rng = random.Random(a.seed * 15485863 + 5)
 rng2 = random.Random(a.seed * 32452843 + 11)      # twins / earlier files (a stream of its own: the routes' data stay as they were)
@@ -446,7 +458,9 @@ def judge(inp, desc, name, res, wanted, hdr_is_final, hash_is_final, n_state):
     else:
         R.count('oracle_violation')
         n_state[id(desc)] = n_state.get(id(desc), 0) + 1
-        if n_state[id(desc)] <= 3:          # (the list is capped: leave room for the other states)
+        n_state['listed'] = n_state.get('listed', 0) + (n_state[id(desc)] <= 3)
+        if n_state[id(desc)] <= 3 and not ('output path held' in inp and n_state['listed'] > 6):
+            # (the list is capped: leave room for the other states, and for the other routes onto earlier files)
             R.violation('oracle', inp, 'the call returned, without raising, something that differs from what the '
                                        'complete file returns' + diff_text(res[1], wanted[1]))
 
@@ -626,8 +640,10 @@ def over_existing(rec, elabel, E):
     states = crash_states(events, shape, final2)
     new = [(b, desc) for b, desc in states.items() if b != E and hashlib.sha1(b).digest() not in rec['digests']]
     R.count('over_existing_new_states', len(new))
-    if len(new) > 300:
-        new = [new[(i * len(new)) // 300] for i in range(300)]
+    if len(R.violations) >= 50:
+        return            # (the list of violations is capped and full: nothing more can be reported)
+    if len(new) > 60:
+        new = [new[(i * len(new)) // 60] for i in range(60)]
     hdr_final = final[:960] + final[980:8192]
     n_state = {}
     for b, desc in new:
